@@ -19,6 +19,7 @@ import (
 	"github.com/Eyevinn/mp4ff/mp4"
 	"pgregory.net/rapid"
 
+	"verif/internal/boxgen"
 	"verif/internal/boxmut"
 	"verif/internal/boxwalk"
 	"verif/internal/harness"
@@ -36,10 +37,20 @@ type Case struct {
 	Opt     bool             `json:"opt,omitempty"`     // C02/C03: encode with OptimizeTrun
 	Info    bool             `json:"info,omitempty"`    // C02: call Info between encodes
 	SWFirst bool             `json:"swfirst,omitempty"` // C02: the first encoding of each structure goes through EncodeSW
+	// Synth: bytes written by the grammar generator internal/boxgen (legal by construction); Origin names what
+	// was asked of it ("box:stsc", "file:frag"). Muts apply on top. Seed is "" for such cases.
+	Synth  harness.HexBytes `json:"synth,omitempty"`
+	Origin string           `json:"origin,omitempty"`
 }
 
 // Bytes materialises the input.
 func (c Case) Bytes() []byte {
+	if c.Seed == "" && c.Synth != nil {
+		if len(c.Muts) == 0 {
+			return c.Synth
+		}
+		return boxmut.Apply(c.Synth, c.Muts)
+	}
 	if c.Seed == "" {
 		return c.Data
 	}
@@ -63,7 +74,7 @@ func (c Case) Bytes() []byte {
 }
 
 // Pristine reports whether the input is an unmodified harvested box / file.
-func (c Case) Pristine() bool { return c.Seed != "" && len(c.Muts) == 0 }
+func (c Case) Pristine() bool { return (c.Seed != "" || c.Synth != nil) && len(c.Muts) == 0 }
 
 // ---------------------------------------------------------------------------------------------
 // generator
@@ -72,6 +83,32 @@ type GenConfig struct {
 	MaxSeed   int  // max seed size in bytes
 	Mutate    bool // allow mutations
 	FieldOnly bool // only size-preserving field mutations (bytes/payload/zero/verflags/count)
+	SynthPct  int  // percentage of cases whose input comes from the grammar generator instead of the seed pool
+}
+
+var synthTypes []string
+
+func init() {
+	synthTypes = append(synthTypes, boxgen.LeafTypes()...)
+	synthTypes = append(synthTypes, boxgen.ContainerTypes()...)
+	// weight the containers and tables with the most decoder logic
+	for i := 0; i < 3; i++ {
+		synthTypes = append(synthTypes, "moov", "trak", "stbl", "stsd", "moof", "traf", "stsc", "trun", "tfhd", "sgpd", "sbgp", "senc", "saiz", "saio", "sidx", "tfra", "elst", "ctts", "pssh", "emsg", "subs", "meta", "udta")
+	}
+}
+
+// genSynth draws a grammar-generated input.
+func genSynth(t *rapid.T, c *Case) {
+	c.Seed, c.Box = "", -1
+	if c.Level == "file" {
+		kind := rapid.SampledFrom([]string{"prog", "init", "media", "frag", "frag", "any"}).Draw(t, "synthKind")
+		c.Origin = "file:" + kind
+		c.Synth = boxgen.File(t, kind, boxgen.Opt{})
+		return
+	}
+	typ := rapid.SampledFrom(synthTypes).Draw(t, "synthType")
+	c.Origin = "box:" + typ
+	c.Synth = boxgen.Box(t, typ, boxgen.Opt{})
 }
 
 var fieldOps = map[string]bool{"bytes": true, "payload": true, "zero": true, "verflags": true, "count": true}
@@ -87,6 +124,9 @@ func Gen(t *rapid.T, cfg GenConfig) Case {
 	c.SWFirst = rapid.Bool().Draw(t, "swfirst")
 	if c.Level == "box" {
 		c.Box = rapid.IntRange(0, 600).Draw(t, "box")
+	}
+	if cfg.SynthPct > 0 && rapid.IntRange(0, 99).Draw(t, "synth") < cfg.SynthPct {
+		genSynth(t, &c)
 	}
 	if cfg.Mutate && rapid.IntRange(0, 9).Draw(t, "mutate") > 0 {
 		muts := boxmut.Gen(t, 3)
@@ -275,7 +315,7 @@ func loadSpec() {
 func maskFor(typ string, payload []byte) []byte {
 	loadSpec()
 	es := dcByT[typ]
-	if len(es) == 0 && !visualEntries[typ] && typ != "colr" && typ != "sgpd" {
+	if len(es) == 0 && !visualEntries[typ] && !computedTypes[typ] {
 		return nil
 	}
 	m := make([]byte, len(payload))
@@ -312,6 +352,9 @@ func maskFor(typ string, payload []byte) []byte {
 	computedMask(typ, payload, m)
 	return m
 }
+
+// computedTypes: box types with position-dependent masks (computedMask) and possibly no table entry.
+var computedTypes = map[string]bool{"colr": true, "sgpd": true, "avcC": true, "tlou": true, "alou": true, "dec3": true, "silb": true}
 
 var visualEntries = map[string]bool{"avc1": true, "avc3": true, "hvc1": true, "hev1": true, "encv": true, "av01": true, "vp08": true, "vp09": true}
 
@@ -355,6 +398,78 @@ func computedMask(typ string, p, m []byte) {
 					m[16+i*dl] = 0xff
 				}
 			}
+		}
+	case typ == "silb":
+		// SchemeIdListBox: the flag bytes (at_least_one_flag per scheme, other_schemes_flag) are read as "== 1";
+		// values above 1 have no defined reading and come back as 0: no claim on such a byte
+		if len(p) < 8 {
+			return
+		}
+		n := int(p[4])<<24 | int(p[5])<<16 | int(p[6])<<8 | int(p[7])
+		pos := 8
+		flagAt := func() {
+			if pos < len(p) && p[pos] > 1 {
+				m[pos] = 0xff
+			}
+			pos++
+		}
+		for i := 0; i < n && pos < len(p); i++ {
+			for k := 0; k < 2; k++ {
+				for pos < len(p) && p[pos] != 0 {
+					pos++
+				}
+				pos++
+			}
+			flagAt()
+		}
+		flagAt()
+	case typ == "dec3":
+		// EC3SpecificBox (ETSI TS 102 366 F.6): per independent substream reserved(1) after bsid, reserved(3) after
+		// lfeon, and reserved(1) instead of chan_loc when num_dep_sub == 0
+		if len(p) < 2 {
+			return
+		}
+		pos := 2
+		for i := 0; i <= int(p[1]&7); i++ {
+			if pos+3 > len(p) {
+				return
+			}
+			m[pos] |= 0x01
+			m[pos+2] |= 0xe0
+			if p[pos+2]&0x1e == 0 {
+				m[pos+2] |= 0x01
+				pos += 3
+			} else {
+				pos += 4
+			}
+		}
+	case typ == "tlou" || typ == "alou":
+		// LoudnessBaseBox (14496-12 12.2.7.2): per loudness base, version>=1: reserved(2) in front of EQ_set_ID;
+		// then reserved(3) in front of downmix_ID
+		if len(p) < 4 {
+			return
+		}
+		pos, n := 4, 1
+		if p[0] >= 1 {
+			if len(p) < 5 {
+				return
+			}
+			n = int(p[4] & 0x3f)
+			pos = 5
+		}
+		for i := 0; i < n; i++ {
+			if p[0] >= 1 {
+				if pos >= len(p) {
+					return
+				}
+				m[pos] |= 0xc0
+				pos++
+			}
+			if pos+7 > len(p) {
+				return
+			}
+			m[pos] |= 0xe0
+			pos += 7 + 3*int(p[pos+6])
 		}
 	case typ == "colr":
 		if len(p) >= 11 && string(p[0:4]) == "nclx" {
